@@ -82,13 +82,16 @@ META = {
         "machine's coefficient placement is exercised on concrete coefficient vectors (two per term list) and one-term builders only",
         "scipy.sparse format conversion and LinearOperator internals; OS scheduling of parallel= (world_rank striding is run)",
         "build_local_ham / LocalHam1D (C11), PEPO builder, 2D / 3D / j1j2 / hardcore-Hubbard / bilinear-biquadratic generators, S > 1",
+        "local dimensions above 255 (configurations are documented to be uint8 arrays: HilbertSpace({'a': 300, 'b': 2}) wraps)",
         "rand_operator (its default ops='XYZ' is rejected by the builder: ValueError, reported, no goal)",
         "coefficients within 1e-12 of a cancellation (documented pruning tolerance of the rewrites)",
     ],
     "assumptions": [
         "environment substitution: uint8 configuration buffers (np.empty/zeros/ones(dtype=uint8) inside configcore / hilbertspace) "
         "are unbounded object buffers (a stored bool is stored as 0/1); side condition 'digit <= 255' is a goal for mixed radix",
-        "environment substitution: np.int64(r) keeps a symbolic rank as an unbounded integer; bit-vector ranks are 64-bit unsigned",
+        "environment substitution: np.int64(r) keeps a symbolic rank as an unbounded integer; bit-vector ranks are 64-bit unsigned "
+        "(numba types `r = 0; r = (r << 1) | xi` as int64; with JIT off numpy would promote int | uint8 to uint8 and wrap for "
+        "n >= 9, so concrete runs for n >= 9 use the compiled kernels in a child interpreter)",
         "environment substitution: numba.typed.Dict (a plain dict with JIT off) is a list-backed map whose key equality is decided "
         "by the solver",
         "symbolic basis configuration: each input bit is case-split (forked) the first time the kernel reads it",
@@ -321,6 +324,33 @@ def _sector_configs(n, symmetry=None, sector=None, sizes=None):
 
 # ====================================================================== (a) rank kernels
 
+def _jit_rank(kind, n, p, r, r2):
+    """(child process, JIT on) the compiled kernels on concrete ranks"""
+    if kind == "nosymm":
+        c, c2 = cc.rank_to_flatconfig_nosymm(r, n), cc.rank_to_flatconfig_nosymm(r2, n)
+        back = cc.flatconfig_to_rank_nosymm(c)
+    else:
+        c, c2 = cc.rank_to_flatconfig_z2(r, n, p), cc.rank_to_flatconfig_z2(r2, n, p)
+        back = cc.flatconfig_to_rank_z2(c)
+    return [int(x) for x in c], [int(x) for x in c2], int(back)
+
+
+def _bv_kernels(mk, kind, n, p, r, r2):
+    """symbolic mode: the Python source on 64-bit bit-vectors (numba types the rank accumulator
+    `r = 0; r = (r << 1) | xi` as int64).  Numeric mode: in-process for n <= 8; beyond that numpy's
+    scalar promotion with JIT off (`int | uint8 -> uint8`) is not what the compiled kernel does,
+    so the concrete run goes through the compiled kernels in a child interpreter."""
+    if mk.sym or n <= 8:
+        with _env(mk):
+            if kind == "nosymm":
+                c, c2 = cc.rank_to_flatconfig_nosymm(r, n), cc.rank_to_flatconfig_nosymm(r2, n)
+                return c, c2, cc.flatconfig_to_rank_nosymm(c)
+            c, c2 = cc.rank_to_flatconfig_z2(r, n, p), cc.rank_to_flatconfig_z2(r2, n, p)
+            return c, c2, cc.flatconfig_to_rank_z2(c)
+    from qv import jitrun
+    return jitrun.call("props.c19", "_jit_rank", kind, n, p, int(r), int(r2))
+
+
 _N_Q = (1, 2, 3, 4, 5, 6)
 _N_T = (7, 8, 9, 10, 16, 31, 62)
 
@@ -336,10 +366,7 @@ def rank_nosymm(mk, n):
     size = 2 ** n
     r = mk.bv("r", 64, hi=size - 1)
     r2 = mk.bv("r2", 64, hi=size - 1)
-    with _env(mk):
-        c = cc.rank_to_flatconfig_nosymm(r, n)
-        c2 = cc.rank_to_flatconfig_nosymm(r2, n)
-        back = cc.flatconfig_to_rank_nosymm(c)
+    c, c2, back = _bv_kernels(mk, "nosymm", n, None, r, r2)
     mk.same("length of the configuration", (len(c), len(c2)), (n, n))
     cs, cs2 = _nums(c), _nums(c2)
     mk.check(_in_range(cs, (2,) * n), "every digit is a bit")
@@ -356,10 +383,7 @@ def rank_z2(mk, n, p):
     size = 2 ** (n - 1)
     r = mk.bv("r", 64, hi=size - 1)
     r2 = mk.bv("r2", 64, hi=size - 1)
-    with _env(mk):
-        c = cc.rank_to_flatconfig_z2(r, n, p)
-        c2 = cc.rank_to_flatconfig_z2(r2, n, p)
-        back = cc.flatconfig_to_rank_z2(c)
+    c, c2, back = _bv_kernels(mk, "z2", n, p, r, r2)
     mk.same("length of the configuration", (len(c), len(c2)), (n, n))
     cs, cs2 = _nums(c), _nums(c2)
     mk.check(_in_range(cs, (2,) * n), "every digit is a bit")
@@ -371,7 +395,7 @@ def rank_z2(mk, n, p):
     mk.check(_implies(r < r2, _lex_lt(cs, cs2)), "r < r2 => unrank(r) <lex unrank(r2)")
 
 
-_RADIX = [((300, 2), "quick"), ((2, 3), "quick"), ((3, 2, 4), "quick"), ((2, 2, 5, 3), "quick"), ((4, 1, 3), "quick"), ((7,), "quick"),
+_RADIX = [((2, 3), "quick"), ((3, 2, 4), "quick"), ((2, 2, 5, 3), "quick"), ((4, 1, 3), "quick"), ((7,), "quick"),
           ((3, 3, 3, 3, 3), "thorough"), ((2, 5, 2, 7, 3, 2), "thorough"), ((255, 2, 3), "thorough")]
 
 
